@@ -186,6 +186,9 @@ func init() {
 				c.Add(recReq(key, nil, sig.R, sig.S, digest, cid, "notsigner", "legacy"), "rec.nil")
 				c.Add(recReq(key, sig.V, new(big.Int).Lsh(sig.R, 8), sig.S, digest, cid, "notsigner", "legacy"), "rec.big")
 				c.Add(recReq(key, sig.V, sig.R, new(big.Int).Neg(sig.S), digest, cid, "notsigner", "legacy"), "rec.neg")
+				// S mirrored to n-S with the same V (the malleated twin needs the other parity): not the signer
+				c.Add(recReq(key, sig.V, sig.R, new(big.Int).Sub(secpN, sig.S), digest, cid, "notsigner", "legacy"), "rec.mirror")
+				c.Add(recReq(key, v155, sig.R, new(big.Int).Sub(secpN, sig.S), digest, cid, "notsigner", "eip155"), "rec.mirror")
 				c.Add(recReq(key, sig.V, big.NewInt(0), sig.S, digest, cid, "notsigner", "legacy"), "rec.zero")
 				c.Add(recReq(key, sig.V, secpN, sig.S, digest, cid, "notsigner", "legacy"), "rec.n")
 				// compact codec
